@@ -88,7 +88,7 @@ theorem first_after_idle_aux {cfg : Config} {s : State} (htm : s.timer = none) (
 
 theorem first_after_idle_forced_aux {cfg : Config} {s s1 : State} (htm : s.timer = none)
     (htok : s.tokens = 0) (hpe : s.pending = 0) (hrun : s.running = true) (hcl : s.closed = false)
-    (hnc : s.cancelled = false) (hadd : step cfg s .add = some s1) :
+    (hnc : s.cancelled = false) (hcas : s.casDone = true) (hadd : step cfg s .add = some s1) :
     ∀ l s2, l.internal = true → step cfg s1 l = some s2 →
       (l = .top ∧ s2.fires = s.fires ∧ s2.tokens = 1 ∧ s2.loop = .sel) ∨
       (l = .deliver ∧ s2.fires = s.fires + 1 ∧ s2.now = s.now) := by
@@ -96,9 +96,9 @@ theorem first_after_idle_forced_aux {cfg : Config} {s s1 : State} (htm : s.timer
   subst hadd
   intro l s2 hint hst
   rcases running_cases hrun with hl | hl
-  · cases l <;> simp [Label.internal] at hint <;> simp [step, hl, hcl, hnc, htm, State.ctxDone] at hst
+  · cases l <;> simp [Label.internal] at hint <;> simp [step, hl, hnc, hcas, htm, State.ctxDone] at hst
     · left; subst hst; simp [htok]
-  · cases l <;> simp [Label.internal] at hint <;> simp [step, hl, hcl, hnc, htm, State.ctxDone] at hst
+  · cases l <;> simp [Label.internal] at hint <;> simp [step, hl, hnc, hcas, htm, State.ctxDone] at hst
     · right; subst hst
       refine ⟨rfl, ?_, ?_⟩
       · rw [handleInput_none (by simpa using htm)]; simp [fire_def, hpe]
@@ -135,8 +135,9 @@ theorem inwindow_step {cfg : Config} (hcap : cfg.cap = none) {s s' : State} {l :
     · exact ⟨rfl, hopen, rfl, Nat.le_refl _⟩
     · refine ⟨rfl, hopen, ?_, ?_⟩ <;> simp <;> omega
   | close => simp only [step] at hst; cases hst; exact ⟨rfl, hopen, rfl, Nat.le_refl _⟩
+  | runCall => simp only [step] at hst; cases hst; exact ⟨rfl, hopen, rfl, Nat.le_refl _⟩
   | cancel => simp only [step] at hst; cases hst; exact ⟨rfl, hopen, rfl, Nat.le_refl _⟩
-  | runCall | run | top | tokenGiveUp | exitLoop | advance _ | closeRet | consume | senderGiveUp | runRet =>
+  | run | runErrRet | top | tokenGiveUp | exitLoop | advance _ | closeRet | consume | senderGiveUp | runRet =>
     simp only [step] at hst
     split at hst <;> cases hst <;> exact ⟨rfl, hopen, rfl, Nat.le_refl _⟩
 
@@ -244,6 +245,41 @@ theorem late_token_aux {cfg : Config} {s s' : State} (htm : s.timer = none) (hp 
     · simp [handleTimer_def]
   · cases hst
 
+/-! ### the `running` flag -/
+
+theorem fire_casDone (cfg : Config) (s : State) : (fire cfg s).casDone = s.casDone := by
+  rw [fire_def]; split <;> rfl
+
+theorem casDone_step {cfg : Config} {s s' : State} {l : Label} (hc : s.casDone = true)
+    (hst : step cfg s l = some s') : s'.casDone = true := by
+  cases l with
+  | add => rw [step_add_def] at hst; split at hst <;> cases hst <;> exact hc
+  | deliver =>
+    simp only [step] at hst
+    split at hst
+    · cases hst
+      cases htm : s.timer with
+      | none => rw [handleInput_none htm, fire_casDone]; exact hc
+      | some d0 =>
+        cases hcap : capReached cfg s with
+        | true => rw [handleInput_cap htm hcap, fire_casDone]; exact hc
+        | false => rw [handleInput_ext htm hcap]; exact hc
+    · cases hst
+  | expire =>
+    simp only [step] at hst
+    split at hst
+    · split at hst
+      · cases hst; rw [handleTimer_def]; simp only []; rw [fire_casDone]; exact hc
+      · cases hst
+    · cases hst
+  | close => simp only [step] at hst; cases hst; exact hc
+  | cancel => simp only [step] at hst; cases hst; exact hc
+  | runCall => simp only [step] at hst; cases hst; exact hc
+  | run => simp only [step] at hst; split at hst <;> cases hst; rfl
+  | runErrRet | top | tokenGiveUp | exitLoop | advance _ | closeRet | consume | senderGiveUp | runRet =>
+    simp only [step] at hst
+    split at hst <;> cases hst <;> exact hc
+
 /-! ### arithmetic range -/
 
 def Range (cfg : Config) (s : State) : Prop :=
@@ -305,8 +341,9 @@ theorem range_reach {cfg : Config} (hv : cfg.valid) (hn : NoOvf cfg) :
       simp only [step] at hst
       split at hst <;> cases hst <;> exact ⟨hf, hp, hc, hk⟩
     | close => simp only [step] at hst; cases hst; exact ⟨hf, hp, hc, hk⟩
+    | runCall => simp only [step] at hst; cases hst; exact ⟨hf, hp, hc, hk⟩
     | cancel => simp only [step] at hst; cases hst; exact ⟨hf, hp, hc, hk⟩
-    | runCall | run | top | tokenGiveUp | exitLoop | advance _ | closeRet | consume | senderGiveUp | runRet =>
+    | run | runErrRet | top | tokenGiveUp | exitLoop | advance _ | closeRet | consume | senderGiveUp | runRet =>
       simp only [step] at hst
       split at hst <;> cases hst <;> exact ⟨hf, hp, hc, hk⟩
 
